@@ -4,7 +4,7 @@ PROP = {
     "ready": True,
     "harness": ["harness/C07.cpp"],
     "units": [{"src": "R:igris/util/numconvert.c", "opt": "-O1"}, {"src": "R:igris/dprint/dprint_func_impl.c"}]
-             + vpdriver.libc_units(["stdlib/itoa.c"]),
+             + vpdriver.libc_units(["stdlib/itoa.c", "stdlib/atol.c"]),
     "targets": [
         {"name": "small_enum", "mode": "enum"},
         {"name": "sweep32", "mode": "enum", "hang_s": 60},
